@@ -85,6 +85,15 @@ M = [
     ("c10_dup_not_stored", "C10", "client/client.go", "\tif publish.Message.QOS == 2 {\n\t\t// store packet\n\t\terr := c.Session.SavePacket(session.Incoming, publish)\n\t\tif err != nil {\n\t\t\treturn c.die(err, true)\n\t\t}\n", "\tif publish.Message.QOS == 2 {\n\t\t// store packet\n\t\tvar err error\n\t\tif !publish.Dup {\n\t\t\terr = c.Session.SavePacket(session.Incoming, publish)\n\t\t}\n\t\tif err != nil {\n\t\t\treturn c.die(err, true)\n\t\t}\n"),
     ("c10_reject_still_acks", "C10", "client/client.go", "\t\t\terr := c.Callback(&publish.Message, nil)\n\t\t\tif err != nil {\n\t\t\t\treturn c.die(err, true)\n\t\t\t}\n\t\t}\n\t}\n\t// handle qos 1 flow", "\t\t\terr := c.Callback(&publish.Message, nil)\n\t\t\tif err != nil {\n\t\t\t\tif publish.Message.QOS == 1 {\n\t\t\t\t\t_ = c.send(&packet.Puback{ID: publish.ID}, false)\n\t\t\t\t}\n\t\t\t\treturn c.die(err, true)\n\t\t\t}\n\t\t}\n\t}\n\t// handle qos 1 flow"),
     ("c10_callback_on_publish_too", "C10", "client/client.go", "\tif publish.Message.QOS <= 1 || c.earlyCallback {", "\tif publish.Message.QOS <= 1 || c.earlyCallback || publish.Dup {"),
+    # ---- C09
+    ("c09_accessor_assert", "C09", "client/futures.go", "\tsuback, _ := f.Result().(*packet.Suback)", "\tsuback := f.Result().(*packet.Suback)"),
+    ("c09_close_waits", "C09 C17", "client/client.go", "\tif c.started {\n\t\tc.tomb.Kill(nil)", "\tif c.started || true {\n\t\tc.tomb.Kill(nil)"),
+    ("c09_ack_err_no_die", "C09", "client/client.go", "\terr := c.Session.DeletePacket(session.Outgoing, id)\n\tif err != nil {\n\t\treturn c.die(err, true)\n\t}", "\terr := c.Session.DeletePacket(session.Outgoing, id)\n\tif err != nil {\n\t\treturn err\n\t}"),
+    ("c09_send_before_save", "C09", "client/client.go", "\t// store packet if at least qos 1\n\tif msg.QOS > 0 {\n\t\terr := c.Session.SavePacket(session.Outgoing, publish)\n\t\tif err != nil {\n\t\t\treturn nil, c.cleanup(err, true, false)\n\t\t}\n\t}\n\n\t// send packet\n\terr := c.send(publish, true)\n\tif err != nil {\n\t\treturn nil, c.cleanup(err, false, false)\n\t}\n", "\t// send packet\n\terr := c.send(publish, true)\n\tif err != nil {\n\t\treturn nil, c.cleanup(err, false, false)\n\t}\n\n\t// store packet if at least qos 1\n\tif msg.QOS > 0 {\n\t\terr := c.Session.SavePacket(session.Outgoing, publish)\n\t\tif err != nil {\n\t\t\treturn nil, c.cleanup(err, true, false)\n\t\t}\n\t}\n"),
+    ("c09_complete_on_pubrec", "C09", "client/client.go", "\t// prepare pubrel packet\n\tpubrel := packet.NewPubrel()\n\tpubrel.ID = id\n", "\t// prepare pubrel packet\n\tpubrel := packet.NewPubrel()\n\tpubrel.ID = id\n\tif f := c.futureStore.Get(id); f != nil {\n\t\tf.Complete(nil)\n\t}\n"),
+    ("c09_no_future_clear", "C09", "client/client.go", "\t// cancel all futures\n\tc.futureStore.Clear()\n", "\t// cancel all futures\n\tif closeConn {\n\t\tc.futureStore.Clear()\n\t}\n"),
+    ("c09_delete_on_pubrec", "C09", "client/client.go", "\t// overwrite stored Publish with the Pubrel packet\n\terr := c.Session.SavePacket(session.Outgoing, pubrel)", "\t// overwrite stored Publish with the Pubrel packet\n\terr := c.Session.DeletePacket(session.Outgoing, id)"),
+    ("c09_resend_no_dup", "C09", "client/client.go", "\t\t\t// set the dup flag on a publish packet\n\t\t\tpublish.Dup = true\n\t\t}\n\n\t\t// resend packet", "\t\t\t// set the dup flag on a publish packet\n\t\t\tpublish.Dup = false\n\t\t}\n\n\t\t// resend packet"),
     # ---- C20
     ("c20_suback_reversed", "C20", "broker/client.go", "\t\tsuback.ReturnCodes[i] = subscription.QOS", "\t\tsuback.ReturnCodes[len(pkt.Subscriptions)-1-i] = subscription.QOS"),
     ("c20_ignore_unexpected", "C20 C14", "broker/client.go", "\tdefault:\n\t\terr = c.die(ClientError, ErrUnexpectedPacket)\n\t}\n\n\t// return eventual error", "\tdefault:\n\t}\n\n\t// return eventual error"),
